@@ -26,6 +26,17 @@ CHECKS = {
         "Simulated reads only; mode 4 judged only with pseudogene + deletion allele + estimated structure; mode 5 only on routes using a neutral region.",
         "DESIGN.md 5/C19",
     ),
+    "C02": (
+        "differential testing of estimate_major against an exhaustive allele-multiset enumerator on Hypothesis-generated evidence tables; noise-free sweep over all shipped catalogues",
+        "Optimality part: planted + noisy read-count tables (novel / competing / weak / dropped sites, fusions, deletions, 1-4 copies, gap "
+        "0-0.5) over the toy gene and generated databases; an independent enumerator recomputes the evidence filter, the candidate alleles "
+        "and the fit error of every admissible multiset: per-configuration copy counts, carried-XOR-novel bookkeeping, reported score = fit "
+        "error, optimum, exact set of within-gap combinations, no duplicates. Noise-free part: pairs of catalogued majors of all 38 shipped "
+        "genes x 2 builds (stride sample quick, all pairs thorough) and 1-4 copy multisets with fusions: planted combination reported with "
+        "error zero.",
+        "Scores at 1e-4; enumeration capped at 2e5 multisets; overlapping footprints not held to error zero.",
+        "DESIGN.md 5/C02",
+    ),
     "C03": (
         "differential testing of solve_cn_model against an exhaustive count-vector enumerator on Hypothesis-generated depth vectors; route predicates",
         "Region-depth vectors (planted structures of 0-5 configurations incl. inexpressible ones, noise <= 0.5, max copy number 3-6, gap 0-0.3, "
